@@ -59,4 +59,22 @@ CHECKS = {
         "trusted_base": TB_COMMON,
         "assumptions": [],
     },
+    "C02": {
+        "cmd": "c02",
+        "technique": "Coq proof over exact rationals: Thomas algorithm returns the unique solution (induction over rows), pivots positive for every strictly increasing axis (dominance invariant), evaluation = monomial cubic, interior rows <=> C2 (field) + exact correspondence incl. spline coefficients",
+        "strength": "full for whole-data-set NotAKnot/Natural/Clamped boundaries and for the per-end algebra (FirstDeriv/SecondDeriv/NotAKnot incl. the 3-point parabola); partial for Individual (dispatch lemma not proved) and Periodic (condensed cyclic solve not proved): those two are carried by the exact correspondence and the implementation-side oracle",
+        "text": "coq/props/C02.v: lane by lane, for every strictly increasing rational axis with n >= 3 and every data set, the slopes solve_for_k returns are the unique solution of the tridiagonal system (no pivot vanishes), every answered query is the monomial cubic of one bracketing interval, pieces interpolate and are C1 for any slopes, and the solution of the system is C2 at every interior knot. Tied to the code by exact-rational runs of the crate compared in Coq (values and the coefficient arrays a, b through the cfg hook) for all boundary kinds, an oracle that fits cubics to the implementation's own exact samples, and f64/f32 runs within 2^-30/2^-10.",
+        "design_ref": "DESIGN.md section 3, C02",
+        "trusted_base": TB_COMMON,
+        "assumptions": ["Individual dispatch and the Periodic condensed solve: validated exactly on every generated case, not proved"],
+    },
+    "C03": {
+        "cmd": "c03",
+        "technique": "Coq proof over exact rationals: each boundary row (with the neighbouring interior row for NotAKnot) is the selected end condition of the pieces (field), uniqueness from the Thomas correctness theorem + exact correspondence over every ordered pair of end conditions",
+        "strength": "full for FirstDeriv/SecondDeriv/Natural/Clamped/NotAKnot on either end incl. n = 3; Periodic: the wrap-around row is proved to be C2 across the period, the cyclic solve is validated only (partial)",
+        "text": "coq/props/C03.v: for every lane, the unique solution of the assembled system satisfies S'(x0)=v / S''(x0)=v / continuous third derivative at the first interior knot on the left, the mirror statements on the right (this is where the repaired defect lived: the proof needs dx[-2] on the diagonal), the parabola for 3 points, and it is the only solution. Tied to the code as C02, with every ordered pair of the five single-end conditions at n = 3, 4, 6 and the regression case of the repaired defect first.",
+        "design_ref": "DESIGN.md section 3, C03",
+        "trusted_base": TB_COMMON,
+        "assumptions": ["Periodic condensed cyclic solve validated, not proved"],
+    },
 }
